@@ -1,5 +1,6 @@
 import MqttVerif.Proofs.FirstConnect
 import MqttVerif.Props.C15b
+import MqttVerif.Props.C19b
 /-
   C18 over histories: "nothing is written before connect() is called, the first packet is CONNECT".  No invariant and no assumption on
   the environment is needed: the statements hold for every list of operations from a fresh factory, including operations on protocol
@@ -31,11 +32,53 @@ theorem disconnect_writes_and_closes (w : World) (p : Nat) (h : allowed w p 1 = 
     apiDisconnect p w = ({ w with log := w.log ++ [.write p encodeDISCONNECT, .close p, .retNone] }, none) := by
   simp [apiDisconnect, Step.read, h, Step.seq, write, emit, Step.mod, World.emit]
 
+/-- a protocol whose loss has been reported is clean: idle, and no pending timer is one of its keepalive or retransmission callbacks -/
+theorem lost_is_clean {w : World} (hw : WInv w) (p : Nat) (pr : Proto) (hpp : w.protos.get? p = some pr) (hl : pr.lost = true) : Clean p w := by
+  obtain ⟨hi, hpt, hpa⟩ := hw.lostIdle p pr hpp hl
+  refine ⟨by simp only [World.proto, hpp, Option.getD_some]; exact hi, fun t tm ht hs hk => ?_⟩
+  cases hkind : tm.kind with
+  | connack cr => rw [hkind] at hk; exact hk
+  | onDisc q r => rw [hkind] at hk; exact hk
+  | pingLoop q =>
+    rw [hkind] at hk; cases hk
+    obtain ⟨pr', l, h1, h2, _⟩ := hw.pingLoopOwned t _ ⟨tm, ht, hs, hkind⟩
+    rw [hpp] at h1; injection h1 with h1; subst h1
+    rw [hpt] at h2; cases h2
+  | pingAlarm q =>
+    rw [hkind] at hk; cases hk
+    obtain ⟨pr', h1, h2⟩ := hw.pingAlarmOwned t _ ⟨tm, ht, hs, hkind⟩
+    rw [hpp] at h1; injection h1 with h1; subst h1
+    rw [hpa] at h2; cases h2
+  | retry q rid =>
+    rw [hkind] at hk; cases hk
+    obtain ⟨pr', h1, h2⟩ := hw.retryLive t _ rid ⟨tm, ht, hs, hkind⟩
+    rw [hpp] at h1; injection h1 with h1; subst h1
+    rw [hl] at h2; cases h2
+
+/-- **nothing at all is written once the connection has been reported lost** -- in any continuation, of any length, whether or not it
+    respects `Env` (bytes still arriving, the loss reported again, API calls on the dead protocol, timers of any kind): as long as
+    `connect()` is not called on that protocol object again (that is known finding KF-2), nothing is written to its transport -/
+theorem silent_after_loss {w : World} (hw : WInv w) (p : Nat) (pr : Proto) (hpp : w.protos.get? p = some pr) (hl : pr.lost = true)
+    (ops : List Op) (hno : ∀ a, Op.connect p a ∉ ops) : ∃ l, (run w ops).log = w.log ++ l ∧ NoW p l := by
+  obtain ⟨l, h1, h2, _⟩ := quiet_delta p ops w (lost_is_clean hw p pr hpp hl) hno
+  exact ⟨l, h1, h2⟩
+
 instance (p : Nat) (l : List Obs) : Decidable (NoW p l) := by unfold NoW; infer_instance
 /-- not vacuous: in the keepalive demonstration history protocol 0 has written (so its first packet is a CONNECT), while a second
     protocol that is built, configured, fed bytes and reported lost without connect() has written nothing -/
 example : ¬ NoW 0 (run (World.init 3) C15.kaDemo).log
     ∧ NoW 1 (run (World.init 3) (C15.kaDemo ++ [.build 1, .sethandlers 1 7, .publish 1 (.str "a") (.bytearray [1]) 1 false,
         .recv 1 [0x20, 2, 0, 0], .recv 1 [0xD0, 0], .lost 1 .connLost, .fire 0, .fire 1])).log := by decide +kernel
+
+/-- not vacuous, and outside `Env`: after protocol 1 of the two-address demonstration has been reported lost, bytes still arriving for
+    it, a second loss report, API calls on it and every timer of the table leave its transport untouched -/
+def lostOne : List Op := C19.twoUp ++ C19.onOne.take 5
+theorem lostOne_env : EnvRun (World.init 3) lostOne := envRunOk_sound _ _ (by decide +kernel)
+example : ∃ l, (run (run (World.init 3) lostOne) [.recv 1 [0x20, 2, 0, 0], .recv 1 [0x32, 6, 0, 1, 0x61, 0, 7, 0x78], .lost 1 .connLost,
+      .publish 1 (.str "a") (.bytearray [1]) 1 false, .disconnect 1, .fire 0, .fire 1, .fire 2, .fire 3, .fire 4, .fire 5, .fire 6, .fire 7]).log
+      = (run (World.init 3) lostOne).log ++ l ∧ NoW 1 l := by
+  have hw := reachable_inv 3 (Or.inr (Or.inr rfl)) lostOne lostOne_env
+  obtain ⟨pr, hpp, hl⟩ : ∃ pr, (run (World.init 3) lostOne).protos.get? 1 = some pr ∧ pr.lost = true := by decide +kernel
+  exact silent_after_loss hw 1 pr hpp hl _ (fun a h => by simp at h)
 
 end Mqtt.C18
